@@ -77,7 +77,7 @@ func vC19PipeTerm(sig int, ops []vPipeOp, vec [vC19NCounters]int64) string {
 	for i, o := range ops {
 		it[i] = vPair(vZ(int64(o.n)), vPair(vZ(int64(o.after)), vBool(o.err)))
 	}
-	return fmt.Sprintf("CPipe %s %s %s", vZ(int64(sig)), vList(it), vC19Vec(vec))
+	return fmt.Sprintf("(CPipe %s %s %s)", vZ(int64(sig)), vList(it), vC19Vec(vec))
 }
 
 // vC19PipeAttrs checks the attribute set of every data point of the item counter: exactly one outcome
